@@ -17,9 +17,9 @@ import shiftlib as sl
 from common import pb, u, Time, da, materialise
 
 PID = "C03"
-KINDS = {"f8": np.float64, "f4": np.float32, "c16": np.complex128, "c8": np.complex64, "i2": np.int16, "i1": np.int8}
-REAL = ("f8", "f4", "i2", "i1")
-INTS = ("i2", "i1")       # plain Signal has no dtype contract; the result dtype for integer data is not stated: values are judged
+KINDS = sl.DTYPES         # native widths, integer data, non-native byte order, extended precision (plain Signal: no dtype contract)
+REAL = tuple(k for k in KINDS if sl.is_real(k))
+INTS = tuple(k for k in KINDS if k not in sl.NATIVE)     # result dtype not stated for these: values are judged
 EPOCH = Time("2020-01-01T00:00:00", format="isot", precision=9)
 DAYTOL = Fraction(1, 2 ** 50)
 
@@ -42,13 +42,13 @@ def variants(case, idx, rnd, n):
     out = []
     whole = all(s % 4 == 0 for s in case["S"])
     for j in range(n):
-        kind = ["c16", "f8", "c8", "f4", "i2", "c16", "f8", "i1"][(idx + j) % 8]
+        kind = sl.KIND_CYCLE[(idx + j) % len(sl.KIND_CYCLE)]
         cls = "Signal"
         if kind in ("c16", "c8") and len(case["ssh"]) >= 1 and rnd.random() < 0.4:
             cls = "BasebandSignal"
         forms = ["float", "list", "quantity", "float"] + (["int"] if whole else [])
         out.append({"kind": kind, "cls": cls, "form": rnd.choice(forms), "dask": rnd.random() < 0.2,
-                    "rate": rnd.randrange(len(sl.RATES)), "start": rnd.random() < 0.6})
+                    "rate": rnd.randrange(len(sl.RATES)), "start": rnd.random() < 0.6, "hist": rnd.randrange(3)})
     return out
 
 
@@ -157,6 +157,21 @@ def replay_case(tab, case, var):
                             % (what, float((got - want) / dt_days))))
         elif yc.start_time is not None:
             out.append(("time_shift:crop:start-time", "%s start_time appeared from nowhere" % what))
+    # ---- same object, later call: after a sanctioned in-place change of the data the result is that of
+    #      the same call on a fresh signal holding the new data
+    if not var["dask"] and not case["early"]:
+        g = sl.inplace_update(z, var.get("hist", 0), var["kind"])
+        if g is not None:
+            try:
+                y2 = materialise(pb.time_shift(z, arg)).reshape(N, -1).astype(np.complex128)
+                yf = materialise(pb.time_shift(sl.fresh_copy(z), arg)).reshape(N, -1).astype(np.complex128)
+            except Exception as e:  # noqa
+                return out + [("time_shift:raised", "%s after an in-place update raised %r" % (what, e))], info
+            info["history"] = 1
+            if not np.allclose(y2, yf, rtol=0, atol=1e-5 * max(1.0, float(np.abs(materialise(z)).max()))):
+                out.append(("time_shift:stale-after-inplace-update",
+                            "%s: after data *= %r in place the same object gives %r..., a fresh signal with the new data %r..."
+                            % (what, g, y2.ravel()[:2].tolist(), yf.ravel()[:2].tolist())))
     return out, info
 
 
@@ -177,6 +192,7 @@ def run_replay(chk, tab, cases, rnd, limit, nvar):
             res, info = replay_case(tab, case, var)
             chk.validated += 1
             forms[info["form"]] = forms.get(info["form"], 0) + 1
+            forms["same-object histories"] = forms.get("same-object histories", 0) + info.get("history", 0)
             k = "%r<-%r" % (tuple(case["ssh"]), tuple(case["shsh"]))
             shapes[k] = shapes.get(k, 0) + 1
             for key, desc in res:
